@@ -61,6 +61,74 @@ theorem runPlan_spec (h : Host) (plan : Plan) (hsh : Shape plan) (t0 : Tree)
     | some c => rfl
     | none => simp only; rw [hg1]; simp
 
+theorem planned_some' (h : Host) (fs : List (Path × Option Path)) (x : Path) (c : Bytes)
+    (hp : planned h fs x = some c) : ∃ f ∈ fs, f.1 = x ∧ srcContent h f.2 = c := by
+  unfold planned at hp
+  cases hf : fs.find? (·.1 = x) with
+  | none => rw [hf] at hp; cases hp
+  | some f =>
+    rw [hf] at hp
+    simp at hp
+    exact ⟨f, List.mem_of_find?_eq_some hf, by simpa using List.find?_some hf, hp⟩
+
+theorem ordered_ne : ∀ (ds before : List Path), Ordered before ds → ∀ d ∈ ds, d ≠ [] := by
+  intro ds
+  induction ds with
+  | nil => intro _ _ d hd; cases hd
+  | cons x xs ih =>
+    intro before ho d hd
+    obtain ⟨h1, _, h3⟩ := ho
+    rcases List.mem_cons.mp hd with rfl | hm
+    · exact h1
+    · exact ih _ h3 d hm
+
+/-- **what the copier does when mounted content and host content claim the same output path**
+(no `NoCollide`): whenever `runPlan` succeeds, the saved tree is the tree of the mounted content
+`t0` with (a) every planned directory added where nothing was (an existing file or directory at
+that path stays), (b) every planned file laid over what was there: on nothing, the file; on a file
+of the mounted content, the host bytes followed by the tail of the longer mounted file (the
+destination is opened without truncation); on a directory of the mounted content - possible only
+for an empty host file - the directory stays. -/
+theorem runPlan_ok_spec (h : Host) (plan : Plan) (hsh : Shape plan) (tree : Tree)
+    (hrun : runPlan h plan = .ok tree) :
+    ∃ t0, loadFrags [] plan.frags = some t0 ∧
+      ∀ x, (tree.get x = match planned h plan.files x with
+          | some c => overlay (t0.get x) c
+          | none => if x ∈ plan.dirs ∧ t0.get x = none then some .dir else t0.get x) ∧
+        (∀ c, planned h plan.files x = some c → t0.get x = some .dir → c = []) := by
+  unfold runPlan at hrun
+  cases hl : loadFrags [] plan.frags with
+  | none => rw [hl] at hrun; cases hrun
+  | some t0 =>
+    rw [hl] at hrun
+    simp only at hrun
+    cases hm : mkdirs t0 plan.dirs with
+    | none => rw [hm] at hrun; cases hrun
+    | some t1 =>
+      rw [hm] at hrun
+      simp only at hrun
+      cases hc : copyFiles h t1 plan.files with
+      | none => rw [hc] at hrun; cases hrun
+      | some t2 =>
+        rw [hc] at hrun
+        cases hrun
+        refine ⟨t0, rfl, fun x => ?_⟩
+        have hg1 := mkdirs_ok_spec plan.dirs t0 t1 (ordered_ne _ [] hsh.ordered) hm
+        obtain ⟨hg2, hd2⟩ := copyFiles_ok_spec h plan.files t1 tree hsh.nodupFiles
+          (fun f hf => (hsh.parents f hf).1) hc x
+        cases hp : planned h plan.files x with
+        | none =>
+          rw [hp] at hg2
+          exact ⟨by rw [hg2, hg1], fun c hcc => by cases hcc⟩
+        | some c =>
+          rw [hp] at hg2
+          obtain ⟨f, hf, hfx, _⟩ := planned_some' h plan.files x c hp
+          have hnd : x ∉ plan.dirs := fun hm' => hsh.disjoint x hm' (by rw [← hfx]; exact List.mem_map.mpr ⟨f, hf, rfl⟩)
+          have ht1 : t1.get x = t0.get x := by rw [hg1]; simp [hnd]
+          refine ⟨by rw [hg2, ht1], fun c' hc' hdir => ?_⟩
+          rw [hp] at hd2
+          exact hd2 c' hc' (by rw [ht1]; exact hdir)
+
 theorem planned_of_mem (h : Host) (fs : List (Path × Option Path)) (hnd : (fs.map (·.1)).Nodup)
     (f : Path × Option Path) (hf : f ∈ fs) : planned h fs f.1 = some (srcContent h f.2) := by
   unfold planned
